@@ -1,5 +1,23 @@
 (* Compile-level theorem for a fragment of the skeleton: the actions emitted by Own.compile pass the static
-   ownership discipline, hence (OwnProofs.program_ok_balanced) every normally terminating run is balanced. *)
+   ownership discipline, hence (OwnProofs.program_ok_balanced) every normally terminating run is balanced.
+
+   PROVED (this file): for the fragment
+       expressions  EPrim EVar EPart ELit EUse1 EUse2 EDerive EConcat EAnd        (fexpr)
+       statements   SSkip SSeq SDecl SExpr SBlock SIf                              (fstmt)
+     cexpr_ok / cstmt_ok: the code Own.compile emits passes own_check from every static state related (Rel) to the
+     compile-time state and leads to a related state; compile_ok: program_ok P = true for every fragment program that
+     compiles; program_balanced_fragment: every normally terminating run of such a program has a balanced ledger.
+   NOT PROVED: the remaining cases of the same two inductions —
+     cexpr_ok for EFalls (arm result claimed out of the arm scope before that scope is left, joined through a fresh slot),
+       EBuild / ECall / EExt (cbuild, cargs, cextargs: owners that are registered nowhere until the callee or container
+       took them; ECall needs the outer induction on the inlining depth of inline_d and the IFun rule);
+     cstmt_ok for SAssign / SAssignPart (the pattern of SDecl via move_post, with the target freed in between),
+       the loops SWhile SDoWhile SRepeat SFor SForEach with SBreak / SContinue (context invariant: the owners below the
+       alloca counter at loop entry are frozen and the scopes from the loop scope upwards only hold younger slots, so the
+       frees of loop_exit_frees lead to exactly the owners recorded for the loop exit / head: check_frees + sorted_ext)
+       and SReturn (the same with return_frees and the IFun rule).
+   For those constructs Lower/CompileBounded.v proves program_ok for an explicitly enumerated family, and the check
+   evaluates the extracted program_ok on every generated skeleton. *)
 From Coq Require Import List NArith Bool Arith Lia Permutation.
 Import ListNotations.
 From DDP Require Import Rt.Heap Lower.Own Lower.OwnCheck Lower.OwnProofs.
@@ -77,6 +95,11 @@ Qed.
 Lemma oc_seq : forall K a b G, own_check K (ISeq a b) G =
   match own_check K a G with Some (Some G1) => own_check K b G1 | r => r end.
 Proof. reflexivity. Qed.
+Lemma oc_if : forall K a b G, own_check K (IIf a b) G =
+  match own_check K a G, own_check K b G with Some ra, Some rb => join ra rb | _, _ => None end.
+Proof. reflexivity. Qed.
+Lemma iseq_cons_eq : forall c l, iseq (c :: l) = match l with [] => c | _ :: _ => ISeq c (iseq l) end.
+Proof. intros c l. destruct l; reflexivity. Qed.
 Lemma iseq_cons2 : forall i j l, iseq (i :: j :: l) = ISeq i (iseq (j :: l)).
 Proof. reflexivity. Qed.
 
@@ -334,7 +357,6 @@ Fixpoint fexpr (e : expr) : bool :=
   | EPrim | EVar _ | EPart _ _ | ELit _ => true
   | EUse1 a | EDerive a _ => fexpr a
   | EUse2 a b | EConcat a b | EAnd a b => fexpr a && fexpr b
-  | EFalls c a b => fexpr c && fexpr a && fexpr b
   | _ => false
   end.
 
@@ -356,7 +378,7 @@ Lemma give_fresh_temp : forall cs1 G1 cs' d Gm,
   (forall s, In s (o_own Gm) -> In s (o_own G1)) ->
   (forall s, In s (o_own G1) -> In s (o_own Gm) \/ In s (o_dead Gm)) ->
   (forall s, In s (o_dead G1) -> In s (o_dead Gm)) ->
-  (forall s, In s (o_dead Gm) -> s < c_next cs1) ->
+  (forall s, In s (o_dead Gm) -> s < c_next cs') ->
   (forall s, In s (vslots cs1) -> In s (o_own Gm)) ->
   Rel cs' (give d Gm).
 Proof.
@@ -372,7 +394,7 @@ Proof.
       * right. apply del_In. split; [apply H3; exact Ho | assumption].
     + subst s. left. apply ins_In. left. reflexivity.
   - intros s [Hs|[]]. apply ins_In. right. apply H5. exact Hs.
-  - intros s Hs. apply del_In in Hs. destruct Hs as [Hs _]. apply H4 in Hs. lia.
+  - intros s Hs. apply del_In in Hs. destruct Hs as [Hs _]. apply H4. exact Hs.
   - intros x p Hl. left. rewrite Eenv in Hl. apply (r_env _ _ R x p Hl).
 Qed.
 
@@ -408,7 +430,7 @@ Lemma step_new_temp : forall cs cs1 G G1 T1 r1 cs' d Gm,
   (forall s, In s (o_own Gm) -> In s (o_own G1)) ->
   (forall s, In s (o_own G1) -> In s (o_own Gm) \/ In s (o_dead Gm)) ->
   (forall s, In s (o_dead G1) -> In s (o_dead Gm)) ->
-  (forall s, In s (o_dead Gm) -> s < c_next cs1) ->
+  (forall s, In s (o_dead Gm) -> s < c_next cs') ->
   (forall s, In s (vslots cs1) -> In s (o_own Gm)) ->
   (forall s, s < c_next cs -> In s (o_own G1) -> In s (o_own Gm)) ->
   expr_post cs cs' G (give d Gm) (T1 ++ [d]) (RTemp d).
@@ -416,17 +438,51 @@ Proof.
   intros cs cs1 G G1 T1 r1 cs' d Gm P E Eenv HS Hd H1 H2 H3 H4 H5 H6.
   pose proof P as [R1 [E1 [N1 [V1 [F1 [D1 _]]]]]].
   pose proof (ext_fresh _ _ _ _ E d (or_intror (or_introl eq_refl))) as Hfd.
-  assert (P2 : expr_post cs1 cs' G1 (give d Gm) [d] (RTemp d)).
-  { split; [eapply give_fresh_temp; eassumption|]. split; [exact E|]. split; [repeat constructor; intros []|]. split; [exact Eenv|].
-    cbn [give o_own o_dead res_ok]. split; [|split].
-    - intros s Hs. rewrite ins_In. split; [intros [Ed|Ho]; [lia | apply H1; exact Ho]|].
-      intro Ho. right. destruct (H2 s Ho) as [Hm|Hm]; [exact Hm|]. exfalso.
-      (* an owner that moved to dead is new *) apply H4 in Hm. clear Hm.
-      admit.
-    - intros s Hs. apply del_In. split; [apply H3; exact Hs|]. intro Ed. subst s. apply (r_dead_lt _ _ R1) in Hs. lia.
-    - split; [left; reflexivity | apply ins_In; left; reflexivity]. }
-  admit.
-Admitted.
+  pose proof (ext_next _ _ _ _ E1) as Hn1.
+  split; [eapply give_fresh_temp; eassumption|].
+  split; [apply (ext_trans _ _ _ [] T1 [] [d] E1 E)|].
+  split. { apply NoDup_app_intro; [exact N1 | repeat constructor; intros []|]. intros x H7 [H8|[]]. subst x.
+           pose proof (ext_fresh _ _ _ _ E1 d (or_intror H7)). lia. }
+  split; [congruence|]. cbn [give o_own o_dead res_ok].
+  split. { intros s Hs. rewrite ins_In. split.
+           - intros [Ed|Ho]; [lia|]. apply (F1 s Hs). apply H1. exact Ho.
+           - intro Ho. right. apply H6; [exact Hs|]. apply (F1 s Hs). exact Ho. }
+  split. { intros s Hs. apply del_In. split; [apply H3, D1, Hs|]. intro Ed. subst s.
+           apply D1 in Hs. apply (r_dead_lt _ _ R1) in Hs. lia. }
+  split; [apply in_or_app; right; left; reflexivity | apply ins_In; left; reflexivity].
+Qed.
+
+(* after a scope pushed on top of cs1 has been left, exactly the owners of before own *)
+Lemma own_back : forall cs1 G1 cs2 G2 h G3, Rel cs1 G1 -> Rel cs2 G2 -> c_scopes cs2 = h :: c_scopes cs1 ->
+  (forall s, In s (scope_slots h) -> c_next cs1 <= s) ->
+  (forall s, s < c_next cs1 -> (In s (o_own G2) <-> In s (o_own G1))) ->
+  (forall s, In s (o_own G3) <-> In s (o_own G2) /\ ~ In s (scope_slots h)) -> sorted (o_own G3) ->
+  o_own G3 = o_own G1.
+Proof.
+  intros cs1 G1 cs2 G2 h G3 R1 R2 E Hh F H3 S3. apply sorted_ext; [exact S3 | apply (r_sorted _ _ R1)|].
+  intro s. rewrite H3. split.
+  - intros [Ho Hn]. apply F; [|exact Ho]. apply (r_own_reg _ _ R2) in Ho. unfold reg in Ho. rewrite E in Ho. cbn [flat_map] in Ho.
+    apply in_app_or in Ho. destruct Ho as [Ho|Ho]; [contradiction|]. apply (r_lt _ _ R1). exact Ho.
+  - intro Ho. assert (Hl : s < c_next cs1) by (apply (r_lt _ _ R1), (r_own_reg _ _ R1), Ho).
+    split; [apply F; assumption|]. intro Hin. apply Hh in Hin. lia.
+Qed.
+
+Lemma ext_same_scopes : forall cs cs1 csx V T, ext cs cs1 V T -> c_scopes csx = c_scopes cs1 ->
+  c_loop csx = c_loop cs1 -> c_fun csx = c_fun cs1 -> c_next cs1 <= c_next csx -> ext cs csx V T.
+Proof.
+  intros cs cs1 csx V T [h [t [E1 [E2 [E4 [E5 [E6 E7]]]]]]] Es El Ef En. exists h, t.
+  split; [exact E1|]. split; [congruence|]. split; [congruence|]. split; [congruence|]. split; [lia|].
+  intros s Hs. apply E7 in Hs. lia.
+Qed.
+
+Lemma ext_push_head : forall cs1 cs2 V T, ext (push_scope cs1) cs2 V T ->
+  exists h, c_scopes cs2 = h :: c_scopes cs1 /\ (forall s, In s (scope_slots h) <-> In s V \/ In s T) /\
+            (forall s, In s (map v_slot (sc_vars h)) <-> In s V).
+Proof.
+  intros cs1 cs2 V T [h [t [E1 [E2 _]]]]. unfold push_scope, with_scopes in E1. cbn [c_scopes] in E1. inversion E1; subst h t.
+  eexists. split; [exact E2|]. unfold scope_slots. cbn [sc_vars sc_temps empty_scope app]. rewrite !map_map. cbn [v_slot t_slot]. rewrite !map_id.
+  split; intro s; [rewrite in_app_iff|]; tauto.
+Qed.
 
 Section Expr.
   Variable inl : nat -> list (option place) -> cstate -> option (instr * res * cstate).
@@ -447,10 +503,448 @@ Section Expr.
       assert (W : ~ In d (o_own G)) by (apply (Rel_fresh_notin cst G d R); unfold d; lia).
       exists (give d G), [d]. cbn [own_check]. unfold writable. rewrite (proj2 (mem_false d (o_own G)) W). cbn [negb].
       split; [reflexivity|]. unfold expr_post.
-      split. { apply (give_fresh_temp cst G _ d G R E); [rewrite add_temp_env; reflexivity | apply (r_sorted _ _ R) | exact W | auto | auto | auto | apply (r_dead_lt _ _ R) | apply (r_vars _ _ R)]. }
+      split. { apply (give_fresh_temp cst G _ d G R E); [rewrite add_temp_env; reflexivity | apply (r_sorted _ _ R) | exact W | auto | auto | auto | intros s Hs; rewrite add_temp_next; cbn; apply (r_dead_lt _ _ R) in Hs; lia | apply (r_vars _ _ R)]. }
       split; [exact E|]. split; [repeat constructor; intros []|]. split; [rewrite add_temp_env; reflexivity|]. cbn [give o_own o_dead res_ok].
       split. { intros s Hs. rewrite ins_In. split; [intros [Ed|Ho]; [unfold d in Ed; lia | exact Ho] | intro Ho; right; exact Ho]. }
       split. { intros s Hs. apply del_In. split; [exact Hs|]. intro Ed. subst s. exact (Rel_fresh_notdead cst G d R (Nat.le_refl _) Hs). }
       split; [left; reflexivity | apply ins_In; left; reflexivity].
-  Admitted.
+    - (* EUse1 *) destruct (cexpr inl sg e cst) as [[[ia ra] cs1]|] eqn:Ea; [|discriminate H]. inversion H; subst. clear H.
+      destruct (IHe F _ _ _ _ G K Ea R) as [G1 [T1 [C1 P1]]]. exists G1, T1. split; [exact C1|].
+      destruct P1 as [A1 [A2 [A3 [A4 [A5 [A6 _]]]]]]. repeat (split; [assumption|]). exact Logic.I.
+    - (* EUse2 *) apply andb_true_iff in F. destruct F as [Fa Fb].
+      destruct (cexpr inl sg e1 cst) as [[[ia ra] cs1]|] eqn:Ea; [|discriminate H].
+      destruct (cexpr inl sg e2 cs1) as [[[ib rb] cs2]|] eqn:Eb; [|discriminate H]. inversion H; subst. clear H.
+      destruct (IHe1 Fa _ _ _ _ G K Ea R) as [G1 [T1 [C1 P1]]].
+      destruct (IHe2 Fb _ _ _ _ G1 K Eb (proj1 P1)) as [G2 [T2 [C2 P2]]].
+      exists G2, (T1 ++ T2). split; [rewrite oc_seq, C1; exact C2|]. eapply post_trans; [exact P1 | exact P2 | exact Logic.I].
+    - (* EDerive *) destruct (cexpr inl sg e cst) as [[[ia ra] cs1]|] eqn:Ea; [|discriminate H].
+      unfold fresh in H. inversion H; subst. clear H.
+      destruct (IHe F _ _ _ _ G K Ea R) as [G1 [T1 [C1 P1]]]. pose proof (proj1 P1) as R1.
+      pose proof (ext_one cs1 (r_ne _ _ R1)) as E. set (d := c_next cs1) in *.
+      assert (W : ~ In d (o_own G1)) by (apply (Rel_fresh_notin cs1 G1 d R1); unfold d; lia).
+      exists (give d G1), (T1 ++ [d]). split.
+      + rewrite oc_seq, C1. cbn [own_check]. unfold writable. rewrite (proj2 (mem_false d (o_own G1)) W). reflexivity.
+      + apply (step_new_temp cst cs1 G G1 T1 ra _ d G1 P1 E); auto using (r_sorted _ _ R1), (r_vars _ _ R1).
+        * rewrite add_temp_env. reflexivity.
+        * intros s Hs. rewrite add_temp_next. cbn. apply (r_dead_lt _ _ R1) in Hs. lia.
+    - (* EConcat *) apply andb_true_iff in F. destruct F as [Fa Fb].
+      destruct (cexpr inl sg e1 cst) as [[[ia ra] cs1]|] eqn:Ea; [|discriminate H].
+      destruct (cexpr inl sg e2 cs1) as [[[ib rb] cs2]|] eqn:Eb; [|discriminate H].
+      destruct (IHe1 Fa _ _ _ _ G K Ea R) as [G1 [T1 [C1 P1]]].
+      destruct (IHe2 Fb _ _ _ _ G1 K Eb (proj1 P1)) as [G2 [T2 [C2 P2]]].
+      assert (P12 : expr_post cst cs2 G G2 (T1 ++ T2) RPrim) by (eapply post_trans; [exact P1 | exact P2 | exact Logic.I]).
+      pose proof P1 as [R1 [E1 [N1 [V1 [F1 [D1 Hra]]]]]]. pose proof P2 as [R2 [E2 [N2 [V2 [F2 [D2 Hrb]]]]]].
+      pose proof (ext_next _ _ _ _ E1) as Hn1. pose proof (ext_next _ _ _ _ E2) as Hn2.
+      assert (Hvs : forall v, In v (vslots cs2) -> v < c_next cst).
+      { intros v Hv. apply (ext_vslots _ _ _ _ E2) in Hv. destruct Hv as [Hv|[]]. apply (ext_vslots _ _ _ _ E1) in Hv. destruct Hv as [Hv|[]].
+        apply (r_lt _ _ R). apply vslots_reg. exact Hv. }
+      assert (Hpb : forall pb, res_place rb = Some pb -> In (root pb) (o_own G2) /\ (forall sa, In sa T1 -> root pb <> sa) /\ root pb < c_next cs2).
+      { intros pb Hp. destruct rb as [|sb|p]; cbn [res_place] in Hp; inversion Hp; subst pb; cbn [root res_ok] in *.
+        - destruct Hrb as [Hb1 Hb2]. split; [exact Hb2|]. pose proof (ext_fresh _ _ _ _ E2 sb (or_intror Hb1)). split; [|lia].
+          intros sa Hsa E. subst sa. pose proof (ext_fresh _ _ _ _ E1 sb (or_intror Hsa)). lia.
+        - assert (Hv2 : In (root p) (vslots cs2)) by (apply (ext_vslots _ _ _ _ E2); left; exact Hrb).
+          split; [apply (r_vars _ _ R2); exact Hv2|]. pose proof (Hvs _ Hv2). split; [|lia].
+          intros sa Hsa E. pose proof (ext_fresh _ _ _ _ E1 sa (or_intror Hsa)). lia. }
+      destruct ra as [|sa|pa].
+      + destruct (res_place rb); discriminate H.
+      + destruct (res_place rb) as [pb|] eqn:Erp; [|discriminate H]. unfold fresh in H. inversion H; subst. clear H.
+        cbn [res_ok] in Hra. destruct Hra as [Ha1 Ha2]. destruct (Hpb pb eq_refl) as [Hb1 [Hb2 Hb3]].
+        pose proof (ext_fresh _ _ _ _ E1 sa (or_intror Ha1)) as Hsa.
+        pose proof (ext_one cs2 (r_ne _ _ R2)) as E. set (d := c_next cs2) in *.
+        assert (W : ~ In d (o_own G2)) by (apply (Rel_fresh_notin cs2 G2 d R2); unfold d; lia).
+        assert (Ha3 : In sa (o_own G2)) by (apply (F2 sa); [lia | exact Ha2]).
+        set (Gm := mkO (del sa (o_own G2)) (ins sa (o_dead G2))).
+        exists (give d Gm), ((T1 ++ T2) ++ [d]). split.
+        * cbn [iseq]. rewrite oc_seq, C1, oc_seq, C2. cbn [own_check]. unfold writable.
+          rewrite (proj2 (mem_false d (o_own G2)) W), (proj2 (mem_In sa (o_own G2)) Ha3), (proj2 (mem_In _ (o_own G2)) Hb1). cbn [negb andb].
+          destruct (Nat.eqb_spec d sa) as [Ed|_]; [lia|]. destruct (Nat.eqb_spec (root pb) sa) as [Ed|_]; [exfalso; exact (Hb2 sa Ha1 Ed)|].
+          reflexivity.
+        * apply (step_new_temp cst cs2 G G2 (T1 ++ T2) RPrim _ d Gm P12 E); unfold Gm; cbn [o_own o_dead].
+          -- rewrite add_temp_env. reflexivity.
+          -- apply del_sorted, (r_sorted _ _ R2).
+          -- intro Hd. apply del_In in Hd. tauto.
+          -- intros s Hs. apply del_In in Hs. tauto.
+          -- intros s Hs. destruct (Nat.eq_dec s sa) as [Es|Es]; [right; apply ins_In; left; exact Es | left; apply del_In; tauto].
+          -- intros s Hs. apply ins_In. right. exact Hs.
+          -- intros s Hs. rewrite add_temp_next. cbn. apply ins_In in Hs. destruct Hs as [Hs|Hs]; [lia | apply (r_dead_lt _ _ R2) in Hs; lia].
+          -- intros s Hs. apply del_In. split; [apply (r_vars _ _ R2); exact Hs|]. pose proof (Hvs _ Hs). lia.
+          -- intros s Hs Ho. apply del_In. split; [exact Ho | lia].
+      + destruct (res_place rb) as [pb|] eqn:Erp; [|discriminate H]. unfold fresh in H. cbn [fst snd c_next] in H. inversion H; subst. clear H.
+        cbn [res_ok] in Hra. destruct (Hpb pb eq_refl) as [Hb1 [Hb2 Hb3]].
+        pose proof (ext_two cs2 (r_ne _ _ R2)) as E. set (c := c_next cs2) in *.
+        assert (W : ~ In c (o_own G2)) by (apply (Rel_fresh_notin cs2 G2 c R2); unfold c; lia).
+        assert (W2 : ~ In (S c) (o_own G2)) by (apply (Rel_fresh_notin cs2 G2 (S c) R2); unfold c; lia).
+        assert (Hpa : In (root pa) (o_own G2)).
+        { apply (r_vars _ _ R2). apply (ext_vslots _ _ _ _ E2). left. apply (ext_vslots _ _ _ _ E1). left. exact Hra. }
+        set (Gm := mkO (del c (ins c (o_own G2))) (ins c (del c (o_dead G2)))).
+        exists (give (S c) Gm), ((T1 ++ T2) ++ [S c]). split.
+        * cbn [iseq]. rewrite oc_seq, C1, oc_seq, C2, oc_seq. cbn [own_check]. unfold writable.
+          rewrite (proj2 (mem_false c (o_own G2)) W), (proj2 (mem_In _ (o_own G2)) Hpa). cbn [negb andb iseq own_check give o_own o_dead].
+          unfold writable. cbn [o_own].
+          assert (M1 : mem (S c) (ins c (o_own G2)) = false).
+          { apply mem_false. intro Hi. apply ins_In in Hi. destruct Hi as [Hi|Hi]; [lia | exact (W2 Hi)]. }
+          assert (M2 : mem c (ins c (o_own G2)) = true) by (apply mem_In, ins_In; left; reflexivity).
+          assert (M3 : mem (root pb) (ins c (o_own G2)) = true) by (apply mem_In, ins_In; right; exact Hb1).
+          rewrite M1, M2, M3. cbn [negb andb]. destruct (Nat.eqb_spec (S c) c) as [Ed|_]; [lia|].
+          destruct (Nat.eqb_spec (root pb) c) as [Ed|_]; [unfold c in Ed; lia|]. reflexivity.
+        * apply (step_new_temp cst cs2 G G2 (T1 ++ T2) RPrim _ (S c) Gm P12 E); unfold Gm; cbn [o_own o_dead].
+          -- rewrite add_temp_env. reflexivity.
+          -- apply del_sorted, ins_sorted, (r_sorted _ _ R2).
+          -- intro Hd. apply del_In in Hd. destruct Hd as [Hd _]. apply ins_In in Hd. destruct Hd as [Hd|Hd]; [lia | exact (W2 Hd)].
+          -- intros s Hs. apply del_In in Hs. destruct Hs as [Hs Hne]. apply ins_In in Hs. destruct Hs as [Hs|Hs]; [contradiction | exact Hs].
+          -- intros s Hs. left. apply del_In. split; [apply ins_In; right; exact Hs|]. intro Es. subst s. exact (W Hs).
+          -- intros s Hs. apply ins_In. right. apply del_In. split; [exact Hs|]. apply (r_dead_lt _ _ R2) in Hs. unfold c. lia.
+          -- intros s Hs. rewrite add_temp_next. cbn. apply ins_In in Hs. destruct Hs as [Hs|Hs]; [unfold c in Hs; lia|].
+             apply del_In in Hs. destruct Hs as [Hs _]. apply (r_dead_lt _ _ R2) in Hs. lia.
+          -- intros s Hs. apply del_In. split; [apply ins_In; right; apply (r_vars _ _ R2); exact Hs|]. pose proof (Hvs _ Hs). unfold c. lia.
+          -- intros s Hs Ho. apply del_In. split; [apply ins_In; right; exact Ho | unfold c; lia].
+    - (* EAnd *) apply andb_true_iff in F. destruct F as [Fa Fb].
+      destruct (cexpr inl sg e1 cst) as [[[ia ra] cs1]|] eqn:Ea; [|discriminate H].
+      destruct (cexpr inl sg e2 (push_scope cs1)) as [[[ib rb] cs2]|] eqn:Eb; [|discriminate H]. inversion H; subst. clear H.
+      destruct (IHe1 Fa _ _ _ _ G K Ea R) as [G1 [T1 [C1 P1]]].
+      pose proof P1 as [R1 [E1 [N1 [V1 [F1 [D1 _]]]]]].
+      destruct (IHe2 Fb _ _ _ _ G1 K Eb (Rel_push _ _ R1)) as [G2 [T2 [C2 P2]]].
+      pose proof P2 as [R2 [E2 [N2 [V2 [F2 [D2 _]]]]]].
+      destruct (ext_push_head _ _ _ _ E2) as [h2 [Eh2 [Hh2 _]]]. rewrite Eh2. cbn [hd].
+      assert (Hpe : forall x p, lookup (c_env (pop_scope cs2)) x = Some p -> In (root p) (vslots (pop_scope cs2))).
+      { intros x p Hl. unfold pop_scope, with_scopes in *. cbn [c_env c_scopes] in *. rewrite Eh2. cbn [tl].
+        rewrite V2 in Hl. apply (r_env _ _ R1 x p Hl). }
+      destruct (scope_exit K cs2 G2 h2 (c_scopes cs1) (pop_scope cs2) R2 Eh2 (r_ne _ _ R1)) as [G3 [C3 [D3 [O3 R3]]]];
+        [unfold pop_scope, with_scopes; cbn [c_scopes]; rewrite Eh2; reflexivity | reflexivity | exact Hpe|].
+      assert (Eo : o_own G3 = o_own G1).
+      { apply (own_back cs1 G1 cs2 G2 h2 G3 R1 R2 Eh2); [| exact F2 | exact O3 | apply (r_sorted _ _ R3)].
+        intros s Hs. apply Hh2 in Hs. destruct Hs as [[]|Hs]. pose proof (ext_fresh _ _ _ _ E2 s (or_intror Hs)). exact (proj1 H). }
+      set (G4 := mkO (o_own G3) (inter (o_dead G3) (o_dead G1))).
+      exists G4, T1. split.
+      + rewrite oc_seq, C1, oc_if. rewrite <- iseq_cons_eq. rewrite oc_iseq_cons, C2, C3. cbn [own_check join]. unfold G4. rewrite Eo, leq_refl. reflexivity.
+      + assert (Hd31 : forall s, In s (o_dead G1) -> In s (o_dead G3)) by (intros s Hs; rewrite D3; apply D2; exact Hs).
+        split.
+        { apply (Rel_dead_weaken _ G3 _ R3).
+          - intros s Hs. apply inter_In in Hs. tauto.
+          - intros s Hs. assert (Hr1 : In s (reg cs1)) by (unfold reg, pop_scope, with_scopes in Hs; cbn [c_scopes] in Hs; rewrite Eh2 in Hs; exact Hs).
+            destruct (r_reg _ _ R1 s Hr1) as [Ho|Ho]; [left; rewrite Eo; exact Ho | right; apply inter_In; split; [apply Hd31|]; exact Ho]. }
+        split. { apply (ext_same_scopes _ _ _ _ _ E1).
+                 - unfold pop_scope, with_scopes. cbn [c_scopes]. rewrite Eh2. reflexivity.
+                 - destruct E2 as [? [? [_ [_ [El _]]]]]. exact El.
+                 - destruct E2 as [? [? [_ [_ [_ [Ef _]]]]]]. exact Ef.
+                 - apply (ext_next _ _ _ _ E2). }
+        split; [exact N1|]. split; [unfold pop_scope, with_scopes; cbn [c_env]; rewrite V2; exact V1|].
+        cbn [G4 o_own o_dead res_ok]. split; [intros s Hs; rewrite Eo; apply F1; exact Hs|].
+        split; [|exact Logic.I]. intros s Hs. apply inter_In. split; [apply Hd31|]; apply D1; exact Hs.
+  Qed.
 End Expr.
+
+(* ------------------------------------------------------------------ statements *)
+Definition stmt_post (cs cs' : cstate) (G G' : ost) : Prop :=
+  exists V T, Rel cs' G' /\ ext cs cs' V T /\
+    (forall s, s < c_next cs -> (In s (o_own G') <-> In s (o_own G))) /\
+    (forall s, In s (o_dead G) -> In s (o_dead G')).
+
+Lemma stmt_post_trans : forall a b c G G1 G2, stmt_post a b G G1 -> stmt_post b c G1 G2 -> stmt_post a c G G2.
+Proof.
+  intros a b c G G1 G2 [V1 [T1 [R1 [E1 [F1 D1]]]]] [V2 [T2 [R2 [E2 [F2 D2]]]]].
+  exists (V1 ++ V2), (T1 ++ T2). split; [exact R2|]. split; [eapply ext_trans; eassumption|].
+  split; [|auto]. intros s Hs. rewrite <- (F1 s Hs). apply F2. pose proof (ext_next _ _ _ _ E1). lia.
+Qed.
+
+Lemma expr_to_stmt_post : forall cs cs' G G' T r, expr_post cs cs' G G' T r -> stmt_post cs cs' G G'.
+Proof. intros cs cs' G G' T r [R [E [_ [_ [F [D _]]]]]]. exists [], T. auto. Qed.
+
+(* the same scopes seen from a later point (more allocas handed out, another environment) *)
+Lemma Rel_same_scopes : forall cs G cs', Rel cs G -> c_scopes cs' = c_scopes cs -> c_next cs <= c_next cs' ->
+  (forall x p, lookup (c_env cs') x = Some p -> In (root p) (vslots cs)) -> Rel cs' G.
+Proof.
+  intros cs G cs' R Es En Henv. destruct R. unfold reg, vslots in *.
+  constructor; unfold reg, vslots; rewrite ?Es; try assumption.
+  - intros s Hs. apply r_lt0 in Hs. lia.
+  - intros s Hs. apply r_dead_lt0 in Hs. lia.
+Qed.
+
+Lemma ext_with : forall cs cs1 cs2 V T, ext cs cs1 V T -> c_scopes cs2 = c_scopes cs1 -> c_loop cs2 = c_loop cs1 ->
+  c_fun cs2 = c_fun cs1 -> c_next cs1 <= c_next cs2 -> ext cs cs2 V T.
+Proof. exact ext_same_scopes. Qed.
+
+Lemma ext_add_var : forall cs cs1 T v, ext cs cs1 [] T -> c_next cs <= v < c_next cs1 ->
+  ext cs (add_var v false cs1) [v] T.
+Proof.
+  intros cs cs1 T v [h [t [E1 [E2 [E4 [E5 [E6 E7]]]]]]] Hv. exists h, t.
+  unfold add_var, map_head, with_scopes. rewrite E2. cbn [c_scopes c_loop c_fun c_next sc_vars sc_temps map].
+  rewrite app_nil_r. split; [exact E1|]. split; [reflexivity|]. split; [exact E4|]. split; [exact E5|]. split; [exact E6|].
+  intros s [Hs|Hs]; [subst s; exact Hv | apply (E7 s Hs)].
+Qed.
+
+Fixpoint fstmt (s : stmt) : bool :=
+  match s with
+  | SSkip => true
+  | SSeq a b => fstmt a && fstmt b
+  | SDecl _ e | SExpr e => fexpr e
+  | SBlock b => fstmt b
+  | SIf c a b => fexpr c && fstmt a && fstmt b
+  | _ => false
+  end.
+
+Lemma decl_final : forall x (cs4 : cstate),
+  let fin := match c_fun cs4, c_scopes cs4 with None, [_] => add_glob x cs4 | _, _ => cs4 end in
+  c_scopes fin = c_scopes cs4 /\ c_next fin = c_next cs4 /\ c_env fin = c_env cs4 /\ c_loop fin = c_loop cs4 /\ c_fun fin = c_fun cs4.
+Proof.
+  intros x cs4. cbn zeta. destruct (c_fun cs4) eqn:Ef; [repeat split; assumption|].
+  destruct (c_scopes cs4) as [|a [|b l]] eqn:Es; unfold add_glob; cbn; repeat split; assumption.
+Qed.
+
+(* a value (temporary s claimed, or copy) stored into a new owner v that is registered as variable or not at all *)
+Lemma move_post : forall cst G cs1 G1 T1 csF V T G' (X : list nat),
+  Rel cst G -> Rel cs1 G1 -> ext cst cs1 [] T1 ->
+  (forall s, s < c_next cst -> (In s (o_own G1) <-> In s (o_own G))) -> (forall s, In s (o_dead G) -> In s (o_dead G1)) ->
+  ext cst csF V T -> NoDup (V ++ T) -> c_next cs1 <= c_next csF ->
+  (forall s, In s T -> In s T1 /\ ~ In s X) -> (forall s, In s T1 -> ~ In s X -> In s T) ->
+  (forall s, In s X -> In s T1) -> (forall s, In s V -> c_next cs1 <= s) ->
+  sorted (o_own G') ->
+  (forall s, In s (o_own G') <-> (In s (o_own G1) /\ ~ In s X) \/ In s V) ->
+  (forall s, In s (o_dead G1) -> In s (o_dead G')) -> (forall s, In s (o_dead G') -> s < c_next csF) ->
+  (forall x p, lookup (c_env csF) x = Some p -> In (root p) (vslots cst) \/ In (root p) V) ->
+  stmt_post cst csF G G'.
+Proof.
+  intros cst G cs1 G1 T1 csF V T G' X R R1 E1 F1 D1 EF ND Hn HT1 HT2 HX HV HS HO HD HDl Henv.
+  exists V, T. split; [|split; [exact EF|split]].
+  - eapply Rel_ext; [exact R | exact EF | exact ND | exact HS | | | | exact HDl | exact Henv].
+    + intros s Hs. apply HO in Hs. destruct Hs as [[Hs Hx]|Hs]; [|right; left; exact Hs].
+      apply (r_own_reg _ _ R1) in Hs. apply (ext_reg _ _ _ _ E1) in Hs. destruct Hs as [Hs|[[]|Hs]]; [left; exact Hs|].
+      right. right. apply HT2; assumption.
+    + intros s Hs.
+      assert (Hr1 : In s (reg cs1) /\ ~ In s X \/ In s V).
+      { destruct Hs as [Hs|[Hs|Hs]].
+        - left. split; [apply (ext_reg _ _ _ _ E1); left; exact Hs|]. intro Hx. apply HX in Hx.
+          pose proof (ext_fresh _ _ _ _ E1 s (or_intror Hx)). apply (r_lt _ _ R) in Hs. lia.
+        - right. exact Hs.
+        - left. destruct (HT1 s Hs) as [H1 H2]. split; [apply (ext_reg _ _ _ _ E1); right; right; exact H1 | exact H2]. }
+      destruct Hr1 as [[Hr Hx]|Hv]; [|left; apply HO; right; exact Hv].
+      destruct (r_reg _ _ R1 s Hr) as [Ho|Ho]; [left; apply HO; left; split; assumption | right; apply HD; exact Ho].
+    + intros s [Hs|Hs]; [|apply HO; right; exact Hs]. apply HO. left. split.
+      * apply (r_vars _ _ R1). apply (ext_vslots _ _ _ _ E1). left. exact Hs.
+      * intro Hx. apply HX in Hx. pose proof (ext_fresh _ _ _ _ E1 s (or_intror Hx)). apply vslots_reg, (r_lt _ _ R) in Hs. lia.
+  - intros s Hs. rewrite HO, <- (F1 s Hs). split.
+    + intros [[Ho _]|Hv]; [exact Ho|]. apply HV in Hv. pose proof (ext_next _ _ _ _ E1). lia.
+    + intro Ho. left. split; [exact Ho|]. intro Hx. apply HX in Hx. pose proof (ext_fresh _ _ _ _ E1 s (or_intror Hx)). lia.
+  - intros s Hs. apply HD, D1, Hs.
+Qed.
+
+Lemma ext_loop_fun : forall cs cs' V T, ext cs cs' V T -> c_loop cs' = c_loop cs /\ c_fun cs' = c_fun cs.
+Proof. intros cs cs' V T [h [t [_ [_ [E4 [E5 _]]]]]]. split; assumption. Qed.
+
+(* a block: push a scope, run, free the scope, forget its variables *)
+Lemma block_post : forall K cst G cs1 G1 (env0 : list (var * place)),
+  Rel cst G -> stmt_post (push_scope cst) cs1 G G1 ->
+  (forall x p, lookup env0 x = Some p -> In (root p) (vslots cst)) ->
+  exists G3, own_check K (iseq (exit_frees false (hd empty_scope (c_scopes cs1)))) G1 = Some (Some G3) /\
+    o_own G3 = o_own G /\ o_dead G3 = o_dead G1 /\ Rel (leave_scope cs1 env0) G3 /\ ext cst (leave_scope cs1 env0) [] [].
+Proof.
+  intros K cst G cs1 G1 env0 R [V [T [R1 [E1 [F1 D1]]]]] Henv.
+  destruct (ext_push_head _ _ _ _ E1) as [h1 [Eh1 [Hh1 _]]]. rewrite Eh1. cbn [hd].
+  destruct (scope_exit K cs1 G1 h1 (c_scopes cst) (leave_scope cs1 env0) R1 Eh1 (r_ne _ _ R)) as [G3 [C3 [D3 [O3 R3]]]].
+  - unfold leave_scope. cbn [c_scopes]. rewrite Eh1. reflexivity.
+  - reflexivity.
+  - intros x p Hl. unfold leave_scope, vslots in *. cbn [c_env c_scopes] in *. rewrite Eh1. cbn [tl]. apply (Henv x p Hl).
+  - exists G3. split; [exact C3|]. split; [|split; [exact D3|split; [exact R3|]]].
+    + apply (own_back cst G cs1 G1 h1 G3 R R1 Eh1); [| exact F1 | exact O3 | apply (r_sorted _ _ R3)].
+      intros s Hs. apply Hh1 in Hs. pose proof (ext_fresh _ _ _ _ E1 s Hs) as Hf. exact (proj1 Hf).
+    + destruct (ext_loop_fun _ _ _ _ E1) as [El Ef]. apply (ext_same_scopes cst cst _ [] [] (ext_refl cst (r_ne _ _ R))).
+      * unfold leave_scope. cbn [c_scopes]. rewrite Eh1. reflexivity.
+      * exact El.
+      * exact Ef.
+      * apply (ext_next _ _ _ _ E1).
+Qed.
+
+Section Stmt.
+  Variable inl : nat -> list (option place) -> cstate -> option (instr * res * cstate).
+  Variable sg : nat -> option (list (var * mode * bool) * bool).
+
+  Lemma cstmt_ok : forall s, fstmt s = true -> forall cst code cs' G K,
+    cstmt inl sg s cst = Some (code, cs') -> Rel cst G ->
+    exists G', own_check K code G = Some (Some G') /\ stmt_post cst cs' G G'.
+  Proof.
+    induction s; intros F cst code cs' G K H R; cbn [fstmt] in F; try discriminate F; cbn [cstmt] in H.
+    - (* SSkip *) inversion H; subst. exists G. split; [reflexivity|]. exists [], [].
+      split; [exact R|]. split; [apply ext_refl, (r_ne _ _ R)|]. split; [intros; tauto | auto].
+    - (* SSeq *) apply andb_true_iff in F. destruct F as [Fa Fb].
+      destruct (cstmt inl sg s1 cst) as [[ia cs1]|] eqn:Ea; [|discriminate H].
+      destruct (cstmt inl sg s2 cs1) as [[ib cs2]|] eqn:Eb; [|discriminate H]. inversion H; subst. clear H.
+      destruct (IHs1 Fa _ _ _ G K Ea R) as [G1 [C1 P1]].
+      assert (R1 : Rel cs1 G1) by (destruct P1 as [? [? [R1 _]]]; exact R1).
+      destruct (IHs2 Fb _ _ _ G1 K Eb R1) as [G2 [C2 P2]].
+      exists G2. split; [rewrite oc_seq, C1; exact C2 | eapply stmt_post_trans; eassumption].
+    - (* SDecl *) destruct (cexpr inl sg e cst) as [[[ie re] cs1]|] eqn:Ee; [|discriminate H].
+      destruct (cexpr_ok inl sg e F _ _ _ _ G K Ee R) as [G1 [T1 [C1 P1]]].
+      pose proof P1 as [R1 [E1 [N1 [V1 [F1 [D1 Hre]]]]]]. pose proof (ext_next _ _ _ _ E1) as Hn1.
+      destruct (ext_loop_fun _ _ _ _ E1) as [El1 Ef1].
+      destruct re as [|s|p].
+      + inversion H; subst. exists G1. split; [exact C1 | eapply expr_to_stmt_post; exact P1].
+      + unfold fresh in H. cbn [claim_or_copy] in H. set (v := c_next cs1) in *.
+        set (cs2 := mkC (c_scopes cs1) (S v) (c_env cs1) (c_loop cs1) (c_fun cs1) (c_glob cs1) (c_refs cs1)) in *.
+        cbn [res_ok] in Hre. destruct Hre as [Hs1 Hs2].
+        assert (E2 : ext cst cs2 [] T1) by (apply (ext_same_scopes _ _ _ _ _ E1); try reflexivity; cbn; lia).
+        destruct (claim_ext cst G cs2 [] T1 s R E2 N1 Hs1) as [cs3 [Ec [E3 [Ev3 [En3 _]]]]]. rewrite Ec in H. inversion H; subst code cs'. clear H.
+        set (cs4 := bind x (PSlot v) (add_var v false cs3)).
+        destruct (decl_final x cs4) as [Q1 [Q2 [Q3 [Q4 Q5]]]]. cbn zeta in *.
+        set (fin := match c_fun cs4 with Some _ => cs4 | None => match c_scopes cs4 with [_] => add_glob x cs4 | _ => cs4 end end) in *.
+        pose proof (ext_fresh _ _ _ _ E1 s (or_intror Hs1)) as Hsb.
+        assert (EF : ext cst fin [v] (del s T1)).
+        { apply (ext_same_scopes cst (add_var v false cs3)); [apply ext_add_var; [exact E3 | rewrite En3; cbn; unfold v; lia] | | | |].
+          - rewrite Q1. reflexivity.
+          - rewrite Q4. reflexivity.
+          - rewrite Q5. reflexivity.
+          - rewrite Q2. unfold cs4, bind. cbn [c_next]. lia. }
+        assert (W : ~ In v (o_own G1)) by (apply (Rel_fresh_notin cs1 G1 v R1); unfold v; lia).
+        exists (give v (take s G1)). split.
+        * rewrite oc_seq, C1. cbn [own_check]. unfold writable. rewrite (proj2 (mem_false v (o_own G1)) W), (proj2 (mem_In s (o_own G1)) Hs2). cbn [negb andb].
+          destruct (Nat.eqb_spec v s) as [Ed|_]; [unfold v in Ed; lia | reflexivity].
+        * apply (move_post cst G cs1 G1 T1 fin [v] (del s T1) _ [s] R R1 E1 F1 D1 EF).
+          -- cbn [app]. constructor; [intro Hi; apply del_In in Hi; destruct Hi as [Hi _]; pose proof (ext_fresh _ _ _ _ E1 v (or_intror Hi)); unfold v in *; lia|].
+             apply del_nodup. exact N1.
+          -- rewrite Q2. unfold cs4, bind. cbn [c_next]. unfold add_var, map_head. destruct (c_scopes cs3); cbn; rewrite En3; cbn; lia.
+          -- intros y Hy. apply del_In in Hy. split; [tauto|]. intros [Hx|[]]. destruct Hy as [_ Hy]. congruence.
+          -- intros y Hy Hx. apply del_In. split; [exact Hy|]. intro Ey. apply Hx. left. auto.
+          -- intros y [Hy|[]]. subst y. exact Hs1.
+          -- intros y [Hy|[]]. subst y. unfold v. lia.
+          -- cbn [give take o_own]. apply ins_sorted, del_sorted, (r_sorted _ _ R1).
+          -- intro y. cbn [give take o_own]. rewrite ins_In, del_In. cbn [In]. intuition congruence.
+          -- intros y Hy. cbn [give take o_dead]. apply del_In. split; [exact Hy|]. apply (r_dead_lt _ _ R1) in Hy. unfold v. lia.
+          -- intros y Hy. cbn [give take o_dead] in Hy. apply del_In in Hy. destruct Hy as [Hy _]. apply (r_dead_lt _ _ R1) in Hy.
+             rewrite Q2. unfold cs4, bind. cbn [c_next]. unfold add_var, map_head. destruct (c_scopes cs3); cbn; rewrite En3; cbn; unfold v; lia.
+          -- intros y q Hl. rewrite Q3 in Hl. unfold cs4, bind in Hl. cbn [c_env lookup] in Hl.
+             destruct (Nat.eqb y x); [inversion Hl; subst q; right; left; reflexivity|].
+             left. rewrite add_var_env, Ev3 in Hl. cbn [c_env cs2] in Hl. rewrite V1 in Hl. apply (r_env _ _ R y q Hl).
+      + unfold fresh in H. cbn [claim_or_copy] in H. set (v := c_next cs1) in *.
+        set (cs2 := mkC (c_scopes cs1) (S v) (c_env cs1) (c_loop cs1) (c_fun cs1) (c_glob cs1) (c_refs cs1)) in *.
+        inversion H; subst code cs'. clear H. cbn [res_ok] in Hre.
+        set (cs4 := bind x (PSlot v) (add_var v false cs2)).
+        destruct (decl_final x cs4) as [Q1 [Q2 [Q3 [Q4 Q5]]]]. cbn zeta in *.
+        set (fin := match c_fun cs4 with Some _ => cs4 | None => match c_scopes cs4 with [_] => add_glob x cs4 | _ => cs4 end end) in *.
+        assert (E2 : ext cst cs2 [] T1) by (apply (ext_same_scopes _ _ _ _ _ E1); try reflexivity; cbn; lia).
+        assert (EF : ext cst fin [v] T1).
+        { apply (ext_same_scopes cst (add_var v false cs2)); [apply ext_add_var; [exact E2 | cbn; unfold v; lia] | | | |].
+          - rewrite Q1. reflexivity.
+          - rewrite Q4. reflexivity.
+          - rewrite Q5. reflexivity.
+          - rewrite Q2. unfold cs4, bind. cbn [c_next]. lia. }
+        assert (W : ~ In v (o_own G1)) by (apply (Rel_fresh_notin cs1 G1 v R1); unfold v; lia).
+        assert (Hp : In (root p) (o_own G1)) by (apply (r_vars _ _ R1), (ext_vslots _ _ _ _ E1); left; exact Hre).
+        assert (Hnx : c_next fin = S v).
+        { rewrite Q2. unfold cs4, bind. cbn [c_next]. unfold add_var, map_head. destruct (c_scopes cs2); reflexivity. }
+        exists (give v G1). split.
+        * rewrite oc_seq, C1. cbn [own_check]. unfold writable. rewrite (proj2 (mem_false v (o_own G1)) W), (proj2 (mem_In _ (o_own G1)) Hp). reflexivity.
+        * apply (move_post cst G cs1 G1 T1 fin [v] T1 _ [] R R1 E1 F1 D1 EF).
+          -- cbn [app]. constructor; [intro Hi; pose proof (ext_fresh _ _ _ _ E1 v (or_intror Hi)); unfold v in *; lia | exact N1].
+          -- rewrite Hnx. unfold v. lia.
+          -- intros y Hy. split; [exact Hy | intros []].
+          -- intros y Hy _. exact Hy.
+          -- intros y [].
+          -- intros y [Hy|[]]. subst y. unfold v. lia.
+          -- cbn [give o_own]. apply ins_sorted, (r_sorted _ _ R1).
+          -- intro y. cbn [give o_own]. rewrite ins_In. cbn [In]. intuition congruence.
+          -- intros y Hy. cbn [give o_dead]. apply del_In. split; [exact Hy|]. apply (r_dead_lt _ _ R1) in Hy. unfold v. lia.
+          -- intros y Hy. cbn [give o_dead] in Hy. apply del_In in Hy. destruct Hy as [Hy _]. apply (r_dead_lt _ _ R1) in Hy. rewrite Hnx. unfold v. lia.
+          -- intros y q Hl. rewrite Q3 in Hl. unfold cs4, bind in Hl. cbn [c_env lookup] in Hl.
+             destruct (Nat.eqb y x); [inversion Hl; subst q; right; left; reflexivity|].
+             left. rewrite add_var_env in Hl. cbn [c_env cs2] in Hl. rewrite V1 in Hl. apply (r_env _ _ R y q Hl).
+    - (* SExpr *) destruct (cexpr inl sg e cst) as [[[ie re] cs1]|] eqn:Ee; [|discriminate H]. inversion H; subst. clear H.
+      destruct (cexpr_ok inl sg e F _ _ _ _ G K Ee R) as [G1 [T1 [C1 P1]]].
+      exists G1. split; [exact C1 | eapply expr_to_stmt_post; exact P1].
+    - (* SBlock *) destruct (cstmt inl sg s (push_scope cst)) as [[ib cs1]|] eqn:Eb; [|discriminate H]. inversion H; subst. clear H.
+      destruct (IHs F _ _ _ G K Eb (Rel_push _ _ R)) as [G1 [C1 P1]].
+      destruct (block_post K cst G cs1 G1 (c_env cst) R P1 (r_env _ _ R)) as [G3 [C3 [O3 [D3 [R3 E3]]]]].
+      exists G3. split; [rewrite <- iseq_cons_eq, oc_iseq_cons, C1; exact C3|].
+      exists [], []. split; [exact R3|]. split; [exact E3|]. split; [intros y _; rewrite O3; tauto|].
+      intros y Hy. rewrite D3. destruct P1 as [? [? [_ [_ [_ D1]]]]]. apply D1. exact Hy.
+    - (* SIf *) apply andb_true_iff in F. destruct F as [F Fb]. apply andb_true_iff in F. destruct F as [Fc Fa].
+      destruct (cexpr inl sg c cst) as [[[ic rc] cs0]|] eqn:Ec; [|discriminate H].
+      destruct (cstmt inl sg s1 (push_scope cs0)) as [[ia cs1]|] eqn:Ea; [|discriminate H].
+      destruct (cstmt inl sg s2 (push_scope (leave_scope cs1 (c_env cs0)))) as [[ib cs2]|] eqn:Eb; [|discriminate H].
+      inversion H; subst. clear H.
+      destruct (cexpr_ok inl sg c Fc _ _ _ _ G K Ec R) as [G0 [T0 [C0 P0]]].
+      pose proof P0 as [R0 [E0 [N0 [V0 [F0 [D0 _]]]]]].
+      destruct (IHs1 Fa _ _ _ G0 K Ea (Rel_push _ _ R0)) as [Ga [Ca Pa]].
+      destruct (block_post K cs0 G0 cs1 Ga (c_env cs0) R0 Pa (r_env _ _ R0)) as [G3a [C3a [O3a [D3a [R3a E3a]]]]].
+      set (csm := leave_scope cs1 (c_env cs0)) in *.
+      assert (Rm : Rel csm G0).
+      { apply (Rel_same_scopes cs0 G0 csm R0).
+        - destruct E3a as [h [t [X1 [X2 _]]]]. rewrite X2, X1. cbn [map]. rewrite !app_nil_r. destruct h; reflexivity.
+        - apply (ext_next _ _ _ _ E3a).
+        - intros y q Hl. unfold csm, leave_scope in Hl. cbn [c_env] in Hl. apply (r_env _ _ R0 y q Hl). }
+      destruct (IHs2 Fb _ _ _ G0 K Eb (Rel_push _ _ Rm)) as [Gb [Cb Pb]].
+      destruct (block_post K csm G0 cs2 Gb (c_env cs0) Rm Pb) as [G3b [C3b [O3b [D3b [R3b E3b]]]]].
+      { intros y q Hl. assert (Hv : In (root q) (vslots cs0)) by apply (r_env _ _ R0 y q Hl).
+        destruct E3a as [h [t [X1 [X2 _]]]]. unfold vslots in *. fold csm in X2. rewrite X2. rewrite X1 in Hv.
+        cbn [flat_map sc_vars map] in *. rewrite app_nil_r. exact Hv. }
+      set (G4 := mkO (o_own G3a) (inter (o_dead G3a) (o_dead G3b))).
+      exists G4. split.
+      + rewrite oc_seq, C0, oc_if. rewrite <- !iseq_cons_eq. rewrite oc_iseq_cons, Ca, C3a, oc_iseq_cons, Cb, C3b. cbn [join]. unfold G4. rewrite O3a, O3b, leq_refl. reflexivity.
+      + assert (Da : forall y, In y (o_dead G0) -> In y (o_dead G3a)).
+        { intros y Hy. rewrite D3a. destruct Pa as [? [? [_ [_ [_ D]]]]]. apply D. exact Hy. }
+        assert (Db : forall y, In y (o_dead G0) -> In y (o_dead G3b)).
+        { intros y Hy. rewrite D3b. destruct Pb as [? [? [_ [_ [_ D]]]]]. apply D. exact Hy. }
+        assert (R4 : Rel (leave_scope cs2 (c_env cs0)) G4).
+        { assert (R3b' : Rel (leave_scope cs2 (c_env cs0)) (mkO (o_own G3a) (o_dead G3b))).
+          { destruct R3b. constructor; cbn [o_own o_dead]; rewrite ?O3a, <- ?O3b; assumption. }
+          apply (Rel_dead_weaken _ _ (inter (o_dead G3a) (o_dead G3b)) R3b'); cbn [o_own o_dead].
+          - intros y Hy. apply inter_In in Hy. tauto.
+          - intros y Hy. assert (Hr0 : In y (reg cs0)).
+            { destruct E3b as [h [t [X1 [X2 _]]]]. destruct E3a as [h' [t' [Y1 [Y2 _]]]]. unfold reg in *. rewrite X2 in Hy.
+              fold csm in Y2. rewrite Y2 in X1. inversion X1; subst h t. rewrite Y1. cbn [map flat_map] in *. rewrite !app_nil_r in Hy.
+              destruct h'; exact Hy. }
+            destruct (r_reg _ _ R0 y Hr0) as [Ho|Ho]; [left; rewrite O3a; exact Ho | right; apply inter_In; split; [apply Da | apply Db]; exact Ho]. }
+        exists [], T0. split; [exact R4|]. split.
+        { apply (ext_same_scopes cst cs0 _ [] T0 E0).
+          - destruct E3b as [h [t [X1 [X2 _]]]]. destruct E3a as [h' [t' [Y1 [Y2 _]]]]. rewrite X2. fold csm in Y2. rewrite Y2 in X1.
+            inversion X1; subst h t. rewrite Y1. cbn [map]. rewrite !app_nil_r. destruct h'; reflexivity.
+          - destruct (ext_loop_fun _ _ _ _ E3b) as [L1 _]. destruct (ext_loop_fun _ _ _ _ E3a) as [L2 _]. fold csm in L2. congruence.
+          - destruct (ext_loop_fun _ _ _ _ E3b) as [_ L1]. destruct (ext_loop_fun _ _ _ _ E3a) as [_ L2]. fold csm in L2. congruence.
+          - pose proof (ext_next _ _ _ _ E3b). pose proof (ext_next _ _ _ _ E3a). fold csm in H0. lia. }
+        cbn [G4 o_own o_dead]. split; [intros y Hy; rewrite O3a; apply F0; exact Hy|].
+        intros y Hy. apply inter_In. split; [apply Da | apply Db]; apply D0; exact Hy.
+  Qed.
+End Stmt.
+
+(* ------------------------------------------------------------------ whole programs of the fragment *)
+Lemma Rel_init : Rel init_cstate (mkO [] []).
+Proof.
+  constructor; cbn.
+  - discriminate.
+  - intros sc0 [Hsc|[]]. subst sc0. split; intros ? [].
+  - constructor.
+  - intros ? [].
+  - exact Logic.I.
+  - intros ? [].
+  - intros ? [].
+  - intros ? [].
+  - intros x p H. discriminate H.
+  - intros ? [].
+Qed.
+
+Definition fprogram (P : program) : bool := fstmt (p_main P).
+
+Theorem compile_ok : forall P, fprogram P = true -> compile P <> None -> program_ok P = true.
+Proof.
+  intros P F Hc. unfold program_ok. unfold compile in *.
+  destruct (cstmt (inline_d P (S (length (p_funs P)))) (sig_of P) (p_main P) init_cstate) as [[im cs]|] eqn:Em; [|congruence].
+  destruct (cstmt_ok _ _ (p_main P) F _ _ _ (mkO [] []) ctx0 Em Rel_init) as [G1 [C1 [V [T [R1 [E1 _]]]]]].
+  destruct E1 as [h [t [X1 [X2 _]]]]. cbn in X1. inversion X1; subst h t. rewrite X2. cbn [hd].
+  set (h := {| sc_vars := sc_vars empty_scope ++ map (fun s => mkVar s false) V; sc_temps := sc_temps empty_scope ++ map (fun s => mkTmp s false) T |}) in *.
+  assert (Hreg : reg cs = scope_slots h) by (unfold reg; rewrite X2; cbn [flat_map]; apply app_nil_r).
+  assert (Hnp : noprot_sc h) by (apply (r_np _ _ R1); rewrite X2; left; reflexivity).
+  rewrite (exit_frees_noprot h Hnp).
+  pose proof (r_nd _ _ R1) as N. rewrite Hreg in N.
+  destruct (check_frees ctx0 (scope_slots h) G1 N) as [G2 [C2 [_ [O2 _]]]].
+  { intros s Hs. apply (r_reg _ _ R1). rewrite Hreg. exact Hs. }
+  rewrite oc_iseq_cons, C1, C2.
+  destruct (o_own G2) as [|y l] eqn:Eo; [reflexivity|]. exfalso.
+  assert (Hy : In y (y :: l)) by (left; reflexivity).
+  apply O2 in Hy. destruct Hy as [Hy Hn]. apply Hn. rewrite <- Hreg. apply (r_own_reg _ _ R1). exact Hy.
+Qed.
+
+(* FULL for the fragment: every normally terminating run of a fragment program has a balanced ledger *)
+Theorem program_balanced_fragment : forall P fuel oracle L,
+  fprogram P = true -> run_program fuel oracle P = Some L -> balanced L.
+Proof.
+  intros P fuel oracle L F Hr. apply (program_ok_balanced P fuel oracle L); [|exact Hr].
+  apply compile_ok; [exact F|]. unfold run_program in Hr. destruct (compile P); [discriminate | discriminate Hr].
+Qed.
